@@ -19,15 +19,15 @@ READY = True
 LEVEL = "exploration"
 TECHNIQUE = ("runtime monitoring: histories of Diagnostic instantiation / register_function / diagnose_network calls in one "
              "process, every call compared with the same call executed in a pristine process; input tables snapshot-compared")
-CASES = {"quick": 48, "thorough": 1500}
+CASES = {"quick": 32, "thorough": 1500}
 BUDGET = {"quick": 100, "thorough": 1500}
 CASE_TIMEOUT = 900
-FLOORS = {"quick": {"nontrivial": 20, "tags": {"two_default_instances": 20, "register_on_default": 15, "nondefault_instance": 10,
-                                               "same_instance_kwargs_change": 20, "report_compact": 12, "report_detailed": 12},
-                    "extras": {"diagnose_calls": 130, "leak_observable_calls": 100, "new_instances_checked": 70,
-                               "results_with_findings": 120}, "max_skip_frac": 0.1},
+FLOORS = {"quick": {"nontrivial": 14, "tags": {"two_default_instances": 14, "register_on_default": 10, "nondefault_instance": 7,
+                                               "same_instance_kwargs_change": 14, "report_compact": 8, "report_detailed": 8},
+                    "extras": {"diagnose_calls": 90, "leak_observable_calls": 45, "new_instances_checked": 65,
+                               "results_with_findings": 80}, "max_skip_frac": 0.1},
           "thorough": {"nontrivial": 700, "tags": {"two_default_instances": 700, "register_on_default": 500, "nondefault_instance": 300},
-                       "extras": {"diagnose_calls": 4500, "leak_observable_calls": 3000}, "max_skip_frac": 0.1}}
+                       "extras": {"diagnose_calls": 4500, "leak_observable_calls": 2200}, "max_skip_frac": 0.1}}
 RULE = ("one case = one history (8-14 operations: new Diagnostic(add_default_functions), register_function of probe functions, "
         "diagnose_network(net, report_style, warnings_only, **random diagnostic kwargs)) on 2 generated networks, run in one "
         "fresh process; non-trivial = some call whose result would differ if earlier kwargs / registrations of any instance "
@@ -233,7 +233,8 @@ def run_case(seed, tier, case_no):
             if obs.get("net_diff"):
                 extra["net_diffs"] += 1
                 viols.append(common.viol("diagnose_network changed the input tables of the network: %s" % obs["net_diff"][:4],
-                                         op=op, diff=obs["net_diff"]))
+                                         mechanism=classify_side_effect(obs), op=op, diff=obs["net_diff"],
+                                         function_errors=obs.get("errors")))
     seen, outv = set(), []
     for v in viols:
         k = (v["mechanism"], v["what"][:30])
@@ -242,6 +243,26 @@ def run_case(seed, tier, case_no):
             outv.append(v)
     return common.case(digest, nontrivial=nontrivial, tags=tags, violations=outv, sample=sample,
                        evals=extra["diagnose_calls"] + extra["new_instances_checked"], extra=extra)
+
+
+# diagnostic functions that edit the caller's net in place and restore it only on the paths they anticipate
+EDITS_IN_PLACE = {"implausible_impedance_values": {"switch", "line", "impedance", "vsc", "line_dc", "ward", "xward", "trafo", "trafo3w"},
+                  "overload": {"load", "gen", "sgen"}, "wrong_switch_configuration": {"switch"}}
+
+
+def classify_side_effect(obs):
+    """ImplausibleImpedanceValues.diagnostic (diagnostic_functions.py:1090-1149) replaces implausible branches by switches in
+    the user's net and restores its table copies only after the statements of the handler; an exception that is not one of
+    `expected_exceptions` raised by the second power flow (e.g. UserWarning 'different setpoints' once buses are fused)
+    leaves the edited tables behind. Trigger checked here: that function is listed in diag_errors and every changed table is
+    one it edits. Same pattern (verified in the code) for Overload and WrongSwitchConfiguration."""
+    errs = obs.get("errors")
+    failed = {k for k, _ in errs["__dict__"]} if isinstance(errs, dict) and "__dict__" in errs else set()
+    changed = {d.split(":")[0].split(".")[0].split("[")[0] for d in obs["net_diff"]}
+    for fn, tabs in EDITS_IN_PLACE.items():
+        if fn in failed and changed and changed <= tabs:
+            return "net_not_restored_after_error_in_" + fn
+    return None
 
 
 def _short(r):
